@@ -109,8 +109,30 @@ class SharedState(object):
                 continue
             yield k, v
 
+    def _foreign_modules(self):
+        """modules of the packages the athlib modules import (jsonschema, dateutil, json, ...): their namespaces are captured shallowly (identities), so
+        that a monkeypatch the library puts on them, or takes off them, during a call is undone with the rest of the state"""
+        fm = getattr(self, '_foreign', None)
+        if fm is None:
+            tops = set()
+            for name, m in list(sys.modules.items()):
+                if m is None or not (name == self.prefix or name.startswith(self.prefix + '.')):
+                    continue
+                for v in list(vars(m).values()):
+                    if isinstance(v, types.ModuleType):
+                        tops.add(v.__name__.split('.')[0])
+                    else:
+                        mod = getattr(v, '__module__', None)
+                        if isinstance(mod, str):
+                            tops.add(mod.split('.')[0])
+            tops -= {self.prefix, 'builtins', 'sys', 'os', 'posixpath', 'typing', 'abc', 'types', 'functools', 'collections', 'decimal', 'math', 're', 'io'}
+            fm = [m for name, m in sorted(sys.modules.items()) if m is not None and name.split('.')[0] in tops and isinstance(m, types.ModuleType)]
+            self._foreign = fm
+        return fm
+
     def capture(self):
         snap = {}
+        snap[('__foreign__', '')] = ('foreign', [(m, dict(vars(m))) for m in self._foreign_modules()], None)
         for label, kind, h in self.holders():
             # the exact set of names present now: any other name found at restore time is removed
             snap[('__allkeys__', label)] = ('keys', frozenset(vars(h).keys()), None)
@@ -143,10 +165,23 @@ class SharedState(object):
     def restore(self, snap):
         for f in self._memoised():
             f.cache_clear()
+        for m, names in snap.get(('__foreign__', ''), (None, (), None))[1]:
+            d = vars(m)
+            if d.keys() != names.keys() or any(d[k] is not v for k, v in names.items()):
+                for k in [k for k in d if k not in names]:
+                    try:
+                        delattr(m, k)
+                    except Exception:
+                        pass
+                for k, v in names.items():
+                    if d.get(k, self) is not v:
+                        setattr(m, k, v)
         by_label = getattr(self, '_by_label', None)
         if by_label is None or by_label[0] is not snap:
             bl = {}
             for (lab, k), val in snap.items():
+                if lab == '__foreign__':
+                    continue
                 bl.setdefault(lab, []).append((k, val))
             by_label = self._by_label = (snap, bl)
         bl = by_label[1]
